@@ -199,6 +199,11 @@ func c19Check(env *core.Env, cc core.Case) core.Verdict {
 				}
 				v.Counts["slow_but_terminated"]++
 			}
+			if strings.Contains(string(r.Stderr), "too many open files") || strings.Contains(string(r.Stderr), "cannot allocate memory") {
+				// the run ended because the process used up its descriptors or its memory on an input of at most 4 KiB:
+				// how long that takes depends on the limits of the environment, so it is judged here and not by the watchdog
+				return core.Viol("resource-exhaustion", "%v ran until the process was out of file descriptors or memory (exit %d, %.1f s CPU)\ninput=%s\nstderr-tail=%s", in.args, r.Exit, r.CPU.Seconds(), core.Q(c.Input), core.Q(tail(r.Stderr, 3)))
+			}
 			if r.Class() == sut.ClassFault {
 				return core.Viol("runtime-fault:"+faultKind(string(r.Stderr)), "%v died from a runtime fault (exit %d %s)\ninput=%s\nstderr-tail=%s", in.args, r.Exit, r.Signal, core.Q(c.Input), core.Q(tail(r.Stderr, 14)))
 			}
@@ -244,7 +249,7 @@ func init() {
 		ID:    "C19",
 		Level: "exploration",
 		Rule: "token-level fuzzing: byte strings up to 4 KiB assembled from ~120 tokens (directive fragments, block and marker keywords, regex metacharacters, escapes including \\( \\) ?i: ?s: (?-s: (?U), braces and oversized repeats, quotes, control, non-ASCII and invalid UTF-8 bytes, CR) and ~80 seed fragments (escaped parentheses in front of flag-like text, empty and unbalanced constructs, self-referential definitions, partial groups in prefix/suffix) are fed to the built CLI on stdin, through an include file (include, include-except in both roles, suffix replacement) and as an assembly file through generate, compare, format --check, update and format; 14 directory shapes that are not a CRS checkout (regex-assembly being a file, a dangling or self-referential link; include directory a file; an include or assembly file being a directory or a link to itself; configuration a directory; -d missing, a file, empty) get three harmless programs each. " +
-			"Oracle: exit classification at the process boundary — no 'runtime error', 'fatal error', signal, race or checkptr report on stderr, and termination within the watchdog (20 s, re-run with 120 s before it is called a hang); exit 0, exit 1 and zerolog's deliberate panic diagnostics (exit 2, 'panic:' raised from zerolog's frames) are all acceptable; any other panic (a library's explicit panic such as strings.Repeat with a negative count) is a fault. The thorough tier repeats a tenth of the inputs on a -race build. Every input is non-trivial; distinct by content hash.",
+			"Oracle: exit classification at the process boundary — no run that ends because the process is out of file descriptors or memory, no 'runtime error', 'fatal error', signal, race or checkptr report on stderr, and termination within the watchdog (20 s, re-run with 120 s before it is called a hang); exit 0, exit 1 and zerolog's deliberate panic diagnostics (exit 2, 'panic:' raised from zerolog's frames) are all acceptable; any other panic (a library's explicit panic such as strings.Repeat with a negative count) is a fault. The thorough tier repeats a tenth of the inputs on a -race build. Every input is non-trivial; distinct by content hash.",
 		Cases: func(env *core.Env, rng *rand.Rand) []core.Case {
 			n := env.N(5000, 150000)
 			var cs []core.Case
